@@ -54,6 +54,8 @@ type Searcher struct {
 	Config
 	counts       map[rules.Pos]int
 	Nodes        int
+	QStalemates  int // stalemates met inside the quiescence search (reach probe)
+	QMates       int // mates met inside the quiescence search
 	Over         bool
 	DrawMet      bool // a repetition or fifty-move draw was met inside the tree (C11's precondition)
 	NoneExplored bool // probe: a node with legal moves none of which the exploration selects
@@ -215,8 +217,10 @@ func (s *Searcher) quiet(n node, entry bool) Val {
 	legal := n.p.LegalMoves()
 	if len(legal) == 0 {
 		if n.p.InCheck(n.p.WhiteT) {
+			s.QMates++
 			return Lost
 		}
+		s.QStalemates++
 		return Zero
 	}
 	best := Val{H: s.Leaf(&n.p)}
